@@ -1,0 +1,50 @@
+/*
+ * SPDX-License-Identifier: Apache-2.0 OR LGPL-2.1-or-later
+ */
+
+//! Verification hooks, compiled only with the `verif_hooks` feature.
+//!
+//! The only hook is a scheduling point invoked immediately before every atomic
+//! memory operation of the `&self` methods of the atomic bit vectors: an
+//! external monitor can install a callback that blocks the calling thread,
+//! thereby serialising threads and choosing the interleaving of their atomic
+//! operations. Without an installed callback a scheduling point is a relaxed
+//! load and a branch.
+
+use std::sync::atomic::{AtomicPtr, Ordering};
+
+static SCHED_HOOK: AtomicPtr<()> = AtomicPtr::new(std::ptr::null_mut());
+
+/// Sites of the scheduling points.
+pub mod site {
+    pub const BIT_VEC_GET_LOAD: u32 = 1;
+    pub const BIT_VEC_SET_RMW: u32 = 2;
+    pub const BIT_VEC_SWAP_RMW: u32 = 3;
+    pub const BIT_FIELD_GET_LOAD: u32 = 10;
+    pub const BIT_FIELD_SET_LOAD: u32 = 12;
+    pub const BIT_FIELD_SET_CAS: u32 = 13;
+    pub const BIT_FIELD_SET_LOAD_LO: u32 = 14;
+    pub const BIT_FIELD_SET_CAS_LO: u32 = 15;
+    pub const BIT_FIELD_SET_LOAD_HI: u32 = 16;
+    pub const BIT_FIELD_SET_CAS_HI: u32 = 17;
+}
+
+/// Installs (or removes, with `None`) the process-wide scheduling callback.
+pub fn set_sched_hook(hook: Option<fn(u32, usize)>) {
+    let p = match hook {
+        Some(f) => f as *mut (),
+        None => std::ptr::null_mut(),
+    };
+    SCHED_HOOK.store(p, Ordering::SeqCst);
+}
+
+/// A scheduling point: `site` identifies the call site, `addr` the address of
+/// the word the following atomic operation accesses.
+#[inline(always)]
+pub fn sched_point(site: u32, addr: usize) {
+    let p = SCHED_HOOK.load(Ordering::Relaxed);
+    if !p.is_null() {
+        let f: fn(u32, usize) = unsafe { std::mem::transmute::<*mut (), fn(u32, usize)>(p) };
+        f(site, addr);
+    }
+}
